@@ -18,7 +18,7 @@ from __future__ import annotations
 import ast
 import copy
 
-from ..absint import TOP, Evaluator, FuncV, Lin, Obj, Sym, Text, Unmodelled
+from ..absint import Raised, TOP, Evaluator, FuncV, Lin, Obj, Sym, Text, Unmodelled
 from ..core import norm, own_nodes
 from ..harness import da_attr_models, da_method_models, run_apply, run_dispatch
 from ..xmodel import COMMON_MODELS, dimsym, make_da, make_grid
@@ -416,6 +416,9 @@ def _temporaries(ctx, P):
             second = (run(names, "phi") + run(names, "theta")) if names else []
         except Unmodelled as e:
             ctx.unknown("R13.1", f"temporary names in {raw_q}", str(e))
+            continue
+        except Raised as r:
+            ctx.unknown("R13.1", f"temporary names in {raw_q}", f"the wrapper raises {r.typ} on a plain call (reported by C07/C08)")
             continue
         collided = {}
         for n_, node in second:
